@@ -322,7 +322,17 @@ fn execute_plan_here(world: &dyn World, plan: &Plan, trace: bool) -> (Outcome, O
         let mut ctx = Ctx::new(&plan.target, trace);
         ctx.ev(1, &[plan.seed]);
         rsdd::verif::arm(faults_to_hook_cfg(plan));
-        let res = catch_unwind(AssertUnwindSafe(|| world.execute(plan, &mut ctx)));
+        let res = catch_unwind(AssertUnwindSafe(|| {
+            // one run in four starts with "earlier work on this thread" (worlds/prelude.rs); `prelude` = 0 in the
+            // configuration switches it off
+            if plan.get_or("prelude", 1) != 0 && crate::worlds::prelude::wanted(plan.seed) {
+                let was = rsdd::verif::set_faults_enabled(false);
+                crate::worlds::prelude::run(plan.seed, matches!(world.name(), "sat" | "cnf" | "query" | "semhash" | "ffi"));
+                rsdd::verif::set_faults_enabled(was);
+                ctx.count("runs-with-earlier-work-on-the-thread", 1);
+            }
+            world.execute(plan, &mut ctx)
+        }));
         let report = rsdd::verif::disarm();
         if ctx.abandoned {
             ctx.count("run-cut-short-over-memory-budget", 1);
